@@ -11,7 +11,7 @@ SPEC = {
 }
 
 CLAIM = {
-    "text": "Seeded timed histories (attempt limit 1/2/3/5, block 30 s/15 min, session TTL 60 s/1 h/30 d, 1-4 client addresses incl. IPv6, varying source ports; per attempt none/one/several of X-Real-IP, X-Forwarded-For, CF-Connecting-IP, True-Client-IP claiming addresses inside the configured trusted proxies, other clients, outside addresses or garbage; peers inside and outside trusted_proxies) of bad/good logins, cookie-authenticated requests through an optionalAuth-wrapped probe, logouts, clock advances to 1 s before/after window, block and expiry edges, restarts (Close + InitAuth on the same sessions.db) and storage faults (sessions bucket deleted / bbolt handle closed, so that writes fail until the next restart), plus a scripted family in which 100-2100 addresses hold a live failure record while a new address reaches the limit, are run through the real handleLogin/optionalAuth/handleLogout on virtual time (testing/synctest). A shadow model checks implications only: max consecutive failures inside a minute from a clean state => every attempt in the following block period is answered 429 and gets no cookie, right password included; a 429 => the last max evaluated attempts of that address are failures within a minute and the last is at most one block period old; right password otherwise => 200 + fresh cookie; a token is accepted while t < created+TTL, rejected after last-accepted+TTL, after its logout and when it was never issued, before and after restarts. Exploration: held on the histories observed, which the evidence counts.",
+    "text": "Seeded timed histories (attempt limit 1/2/3/5, block 30 s/15 min, session TTL 60 s/1 h/30 d, 1-4 client addresses incl. IPv6, varying source ports; per attempt none/one/several of X-Real-IP, X-Forwarded-For, CF-Connecting-IP, True-Client-IP claiming addresses inside the configured trusted proxies, other clients, outside addresses or garbage; peers inside and outside trusted_proxies) of bad/good logins, cookie-authenticated requests through an optionalAuth-wrapped probe, logouts, clock advances to 1 s before/after window, block and expiry edges, restarts (Close + InitAuth on the same sessions.db) and storage faults (sessions bucket deleted / bbolt handle closed, so that writes fail until the next restart), plus a scripted family in which 100-2100 addresses hold a live failure record while a new address reaches the limit, are run through the real handleLogin/optionalAuth/handleLogout on virtual time (testing/synctest). A shadow model checks implications only: max consecutive failures inside a minute from a clean state => every attempt in the following block period is answered 429 and gets no cookie, right password included; a 429 => the last max evaluated attempts of that address are failures within a minute and the last is at most one block period old; right password otherwise => 200 + fresh cookie; a token is accepted while t < created+TTL, rejected after last-accepted+TTL, after its logout and when it was never issued, before and after restarts. Part logoutrace (real time, race detector): rounds in which 1-3 cookie-authenticated requests that take the once-a-day expiry prolongation run concurrently with GET /control/logout for the same cookie; after all returned, and again after Auth is re-created from sessions.db, the cookie must be refused. Exploration: held on the histories and interleavings observed, which the evidence counts.",
     "note": "Trusted: testing/synctest virtual clock (Go 1.24 experiment). The throttled address is the connecting peer unless the peer itself is a trusted proxy. Not asserted (counted as unspecified zones): attribution of attempts from a trusted-proxy peer that carry forwarding headers, sliding vs anchored reading of 'within a minute' once older failures may still count, whether blocked attempts extend a block, throttle state across restarts, what a restart restores from a sessions.db that could not be written, acceptance between the initial expiry and last-use+TTL (daily refresh), behaviour exactly on an edge (1 s granularity).",
     "technique": "runtime monitor: lock-step shadow model with implication oracle over seeded timed histories on virtual time (in-package handlers via httptest)",
 }
